@@ -153,12 +153,33 @@ func runPipe(pc pipeCase) pipeObs {
 	return o
 }
 
+// specTime is the specification's reading of a message id, independent of the library:
+// msg_id = unixtime * 2^32, i.e. seconds in the high word and a binary fraction of a second in
+// the low word; returned in unix nanoseconds (fraction rounded down to a nanosecond).
+func specTime(id int64) int64 {
+	return (id>>32)*1_000_000_000 + int64(uint64(uint32(id))*1_000_000_000>>32)
+}
+
+// specID builds a server-typed id for the instant t (unix ns) with the full 32-bit fraction.
+func specID(t int64, typ proto.MessageType) int64 {
+	sec, ns := t/1_000_000_000, t%1_000_000_000
+	lo := (uint64(ns) << 32) / 1_000_000_000
+	id := sec<<32 | int64(lo&^3)
+	switch typ {
+	case proto.MessageFromServer:
+		id |= 3
+	case proto.MessageServerResponse:
+		id |= 1
+	}
+	return id
+}
+
 // oraclePipe evaluates the statement of C07 on the observed deliveries.
 func oraclePipe(pc pipeCase, o pipeObs) (sig, desc string) {
 	w := &window{n: windowN}
 	for i, f := range pc.Frames {
 		now := o.Now[i]
-		created := proto.MessageID(f.ID).Time().UnixNano()
+		created := specTime(f.ID)
 		pad := f.Total - int(f.Len)
 		typed := f.ID > 0 && (f.ID%4 == 1 || f.ID%4 == 3)
 		fresh := created >= now-300e9 && created <= now+30e9
@@ -171,6 +192,8 @@ func oraclePipe(pc pipeCase, o pipeObs) (sig, desc string) {
 			switch {
 			case base && padOK:
 				return "replay-accepted", fmt.Sprintf("frame %d (%s): msg_id %d reached the handler although it is %s", i, f.Kind, f.ID, why(w, f.ID))
+			case f.Auth == 0 && f.Sess == pc.Session && typed && lenOK && padOK && !fresh:
+				return "message-outside-time-window-accepted", fmt.Sprintf("frame %d (%s): msg_id %#x, created %.3f s relative to now (id / 2^32 reading), reached the handler (window: -300 s .. +30 s)", i, f.Kind, f.ID, float64(created-now)/1e9)
 			case base && pad < 12:
 				return "short-padding-accepted", fmt.Sprintf("frame %d (%s): message with %d bytes of padding (payload %d) reached the handler", i, f.Kind, pad, f.Len)
 			default:
@@ -195,7 +218,13 @@ func genPipe(r *hx.Rand, nframes int, mostlyValid bool) pipeCase {
 	}
 	now := time.Date(2024, 1, 1, 0, 0, 0, 0, time.UTC).UnixNano()
 	var accepted []int64
-	mkID := func(t int64, typ proto.MessageType) int64 { return int64(proto.NewMessageIDNano(t, typ)) }
+	libIDs := r.Chance(1, 4) // a quarter of the histories use the library's own (nanosecond) encoding, like tgtest
+	mkID := func(t int64, typ proto.MessageType) int64 {
+		if libIDs {
+			return int64(proto.NewMessageIDNano(t, typ))
+		}
+		return specID(t, typ)
+	}
 	srvType := func() proto.MessageType {
 		if r.Bool() {
 			return proto.MessageFromServer
@@ -245,10 +274,10 @@ func genPipe(r *hx.Rand, nframes int, mostlyValid bool) pipeCase {
 			f.Kind, f.ID = "type-2-id", mkID(t, proto.MessageFromClient)|2
 		case 7: // around the past boundary
 			f.Kind = "past-boundary"
-			f.ID = mkID(now-300e9+int64(r.Range(-3, 3))*4, srvType())
+			f.ID = mkID(now-300e9+[]int64{-2_000_000_000, -600_000_000, -12, -4, 0, 4, 12, 400_000_000, 1_900_000_000}[r.Intn(9)], srvType())
 		case 8:
 			f.Kind = "future-boundary"
-			f.ID = mkID(now+30e9+int64(r.Range(-3, 3))*4, srvType())
+			f.ID = mkID(now+30e9+[]int64{-2_000_000_000, -600_000_000, -12, -4, 0, 4, 12, 400_000_000, 1_900_000_000}[r.Intn(9)], srvType())
 		case 9:
 			f.Kind, f.ID = "too-old", mkID(now-int64(r.Range(301, 100000))*1e9, srvType())
 		case 10:
@@ -416,6 +445,17 @@ func main() {
 			{Sess: 77, ID: id, Len: 4, Total: 16, Kind: "replay"}, // old, non-latest id
 			{Sess: 77, ID: id3, Len: 4, Total: 32, Kind: "valid"},
 			{Sess: 77, ID: id2, Len: 4, Total: 16, Kind: "replay"},
+		}})
+	}
+	{ // ids whose low word is a large binary fraction of a second, just outside / inside the window
+		T := time.Date(2024, 1, 1, 0, 0, 0, 0, time.UTC).Unix()
+		pipeRun("corpus", pipeCase{Seed: 12, Session: 77, Frames: []fspec{
+			{Sess: 77, ID: (T-302)<<32 | 0x7FFFFFFD, Len: 4, Total: 16, Kind: "past-boundary"},  // 301.5 s old
+			{Sess: 77, ID: (T+32)<<32 | 0x80000001, Len: 4, Total: 16, Kind: "future-boundary"}, // 32.5 s ahead
+			{Sess: 77, ID: (T-301)<<32 | 0x00000011, Len: 4, Total: 16, Kind: "past-boundary"},  // 301 s old
+			{Sess: 77, ID: (T-300)<<32 | 0xFFFFFFFD, Len: 4, Total: 16, Kind: "past-boundary"},  // 299.0..1 s old: valid
+			{Sess: 77, ID: (T+29)<<32 | 0xC0000001, Len: 4, Total: 16, Kind: "future-boundary"}, // 29.75 s ahead: valid
+			{Sess: 77, ID: (T+30)<<32 | 0x00000005, Len: 4, Total: 16, Kind: "future-boundary"}, // 30.000000001 s ahead
 		}})
 	}
 	// exhaustive: all histories over an alphabet of 5 ids, N in {1,2,3}; lengths <= 6 under the
